@@ -21,7 +21,10 @@ EXPLANATION = (
     "ndim == 3 (enclosing if, else of a ==2 test, or an earlier raise/return on the complement).  "
     "This is a necessary condition of 'every documented weighting scheme constructs in both "
     "dimensions' and of the 2-D index maps.  Also checks that the weight-scheme dispatch handles "
-    "exactly the documented names.  NOT decided: index-map inversion arithmetic, weights summing to "
+    "exactly the documented names, and -- with a symbolic array-shape domain analysed once per "
+    "dimensionality -- that every scheme returns the C-order flattening of an array whose axes are "
+    "(shape[0], shape[1][, shape[2]]) (or a uniform vector), i.e. that tensor weights follow the point "
+    "layout for non-cubic shapes.  NOT decided: index-map inversion arithmetic, weights summing to "
     "the volume, nearest point, molecule margin, cube round trip, spline reproduction (numerical).")
 RULE = "one instance per third-axis construct in the 2-D-capable functions; one per weight-scheme key"
 
@@ -110,6 +113,88 @@ def helper_axis_params(fn_node):
     return out
 
 
+def rule_layout(rep, repo):
+    """Tensor layout of the weights (symbolic shape domain, once per dimensionality): every weighting
+    scheme must return, in 2-D and in 3-D, either a uniform vector of length prod(shape) or the C-order
+    flattening of an array whose axes are exactly (shape[0], shape[1][, shape[2]]) -- the layout of the
+    points (last index fastest).  A transposed or wrongly broadcast weight array pairs weights with the
+    wrong points for every non-cubic shape."""
+    from gridlint import e4, e7
+    f = repo.method("UniformGrid", "_choose_weight_scheme")
+    d = e4.string_dispatch(f.node.body, "weight")
+    chain, else_body, node = d
+    shape_param = f.params[2] if len(f.params) > 2 else "shape"
+    for key, body in chain:
+        for nd in (2, 3):
+            si = e7.ShapeInterp(nd, f.node, shape_names=(shape_param,))
+            si.run(body)
+            cons = f"cubic.UniformGrid._choose_weight_scheme[{key}]"
+            where = repo.rel("cubic", body[0])
+            want = tuple(("n", k, 0) for k in range(nd))
+            probs = [p for p in si.problems]
+            if probs:
+                kind, text, pnode = probs[0]
+                rep.violation("tensor-weight-layout", cons, f"{nd}D:{kind}",
+                              f"in {nd} dimensions: {text}" + (" -- axis beyond the grid's dimension" if kind == "axis" else ""),
+                              repo.rel("cubic", pnode))
+                continue
+            if not si.returns:
+                raise AnalysisError(f"shape analysis: weight scheme {key!r} returns nothing in {nd}D")
+            r = si.returns[0]
+            if r == ("arr", (("prod",),)):
+                rep.ok("tensor-weight-layout", f"{cons}:{nd}D", where, "uniform vector of length prod(shape)")
+            elif r[0] == "arr" and len(r[1]) == 1 and isinstance(r[1][0], tuple) and r[1][0][0] == "ravel":
+                got = r[1][0][1]
+                if got == want:
+                    rep.ok("tensor-weight-layout", f"{cons}:{nd}D", where, "ravel of " + e7.show_shape(("arr", got)))
+                else:
+                    rep.violation("tensor-weight-layout", cons, f"{nd}D:axes",
+                                  f"in {nd} dimensions the scheme flattens an array with axes {e7.show_shape(('arr', got))} "
+                                  f"but the points are laid out over {e7.show_shape(('arr', want))} (last index fastest): "
+                                  f"weights are paired with the wrong points unless all point counts are equal", where)
+            elif r == e7.UNKNOWN:
+                raise AnalysisError(f"shape analysis cannot determine the shape returned by weight scheme {key!r} in {nd}D")
+            else:
+                rep.violation("tensor-weight-layout", cons, f"{nd}D:shape",
+                              f"in {nd} dimensions the scheme returns an array of shape {e7.show_shape(r)}; expected a "
+                              f"vector of length prod(shape)", where)
+    # Tensor1DGrids: kron nesting order must follow the meshgrid('ij') argument order
+    t = repo.method("Tensor1DGrids", "__init__")
+    n = 0
+    for st in ast.walk(t.node):
+        if isinstance(st, ast.If):
+            meshes = [c for b in st.body for c in ast.walk(b) if isinstance(c, ast.Call) and norm(c.func) == "np.meshgrid"]
+            for branch in (st.body, st.orelse):
+                mesh = [c for b in branch for c in ast.walk(b) if isinstance(c, ast.Call) and norm(c.func) == "np.meshgrid"]
+                kron = [b.value for b in branch if isinstance(b, ast.Assign) and isinstance(b.value, ast.Call)
+                        and norm(b.value.func) == "np.kron"]
+                if not mesh or not kron:
+                    continue
+                n += 1
+                order_pts = [norm(a).replace(".points", "") for a in mesh[0].args]
+                indexing = next((norm(k.value) for k in mesh[0].keywords if k.arg == "indexing"), "'xy'")
+
+                def flat(k):
+                    out = []
+                    for a in k.args:
+                        if isinstance(a, ast.Call) and norm(a.func) == "np.kron":
+                            out += flat(a)
+                        else:
+                            out.append(norm(a).replace(".weights", ""))
+                    return out
+                order_w = flat(kron[0])
+                cons = "cubic.Tensor1DGrids.__init__"
+                if indexing == "'ij'" and order_pts == order_w:
+                    rep.ok("tensor-weight-layout", f"{cons}:{len(order_w)}D", repo.rel("cubic", kron[0]),
+                           f"meshgrid('ij') over {order_pts}, kron over {order_w}")
+                else:
+                    rep.violation("tensor-weight-layout", cons, f"{len(order_w)}D",
+                                  f"points enumerate meshgrid({', '.join(order_pts)}, indexing={indexing}) but weights are "
+                                  f"kron({', '.join(order_w)}): the product weight of node (i, j[, k]) is attached to another "
+                                  f"node", repo.rel("cubic", kron[0]))
+    rep.floor("tensor-product branches of Tensor1DGrids", n, 2)
+
+
 def run(tier="quick", root="/repo", evidence_dir=None, quiet=False):
     rep = Report(PROP, tier, root, EXPLANATION, RULE, assumptions=[
         "the guards listed in the checker (dim == 3, self.ndim == 3, len(shape) == 3, oned_z is not None and the "
@@ -165,6 +250,7 @@ def run(tier="quick", root="/repo", evidence_dir=None, quiet=False):
         rep.violation("weight-scheme-returns", "cubic.UniformGrid._choose_weight_scheme", "else",
                       "unknown weight names are not rejected", repo.rel("cubic", node))
     rep.floor("weight schemes", len(keys), 5)
+    rule_layout(rep, repo)
     rep.extra.update({"functions_in_scope": len(scope), "weight_schemes": keys, "source_digest": repo.digest(["cubic"])})
     return rep.finish(evidence_dir=evidence_dir, quiet=quiet)
 
